@@ -16,11 +16,14 @@
       placement, side to move, four castling rights, en passant target — ordinary moves, captures,
       promotions (four pieces), en passant, the four castlings; the king caches of the successor are
       right as well (used for the king-safety filter).
-  Not proved: that well-formedness (`WFp`, in particular "the abstraction is a legal position") is
-  itself preserved along chains — `Inv` is; the correspondence run covers chains.
+    * `gen_chain_wf`, `successor_is_spec_apply_along_chains`: well-formedness (incl. "the abstraction
+      is a legal position": legal positions are closed under legal moves, Proofs/LegalPres) is preserved
+      by every generated successor in either mode, so the statement holds along chains of any length,
+      in particular for every position reachable from the start position by generated moves.
 -/
 import Walleye.Proofs.Caps
 import Walleye.Proofs.StartWF
+import Walleye.Proofs.LegalPres
 namespace Walleye
 
 theorem gen_succ_inv (h : Hasher) (p : Pos) (mode : Mode) (hinv : Inv h p) :
@@ -97,5 +100,20 @@ theorem promo_letter_iff_partial (h : Hasher) (piece : Piece) (p : Pos) (sq mov 
 theorem successor_is_spec_apply (h : Hasher) (p : Pos) (wf : WFp p) :
     ∀ q ∈ generateMoves h p .all, abs q = Spec.apply (abs p) (moveOf q) :=
   fun q hq => (generateMoves_sound h p wf q hq).2
+
+/-- well-formedness and the chain invariant hold along every chain of generated successors -/
+theorem gen_chain_wf (h : Hasher) (p q : Pos) (wf : WFp p) (hinv : Inv h p) (hc : GenChain h p q) : WFp q ∧ Inv h q := by
+  induction hc with
+  | refl => exact ⟨wf, hinv⟩
+  | step mode _ hs ih =>
+    cases mode with
+    | all => exact generateMoves_wf h _ ih.1 ih.2 _ hs
+    | caps => exact generateMoves_wf h _ ih.1 ih.2 _ (generateMoves_caps_subset h _ _ hs)
+
+/-- **C02 along chains of any length** (either generation mode at every step) -/
+theorem successor_is_spec_apply_along_chains (h : Hasher) (p q : Pos) (wf : WFp p) (hinv : Inv h p)
+    (hc : GenChain h p q) :
+    ∀ s ∈ generateMoves h q .all, abs s = Spec.apply (abs q) (moveOf s) :=
+  fun s hs => (generateMoves_sound h q (gen_chain_wf h p q wf hinv hc).1 s hs).2
 
 end Walleye
